@@ -51,10 +51,10 @@ EVIDENCE = {
     "assumptions": [
         "sequential only: one optimize call at a time, n_jobs=1 (the property says sequential)",
         "a parameter name keeps its kind (and categorical choices, log flag) throughout a program, as the storage requires; an int/float name may have a different range at a different tree node (the sampler's docstring example), never two ranges at the same node",
-        "faults are injected only after the last suggest of a trial (before that the evaluated combination is not determined)",
+        "fail/prune/interrupt faults are injected after the last suggest of a trial (before that the evaluated combination is not determined); process kills also after 0, 1 or 2 suggest calls",
         "a finished search is never resumed (BruteForceSampler/GridSampler re-evaluate a point by design when optimize is called on an exhausted study)",
         "failed, pruned and interrupted evaluations count as visits (as both samplers define); an evaluation cut by a process kill does not (its trial stays RUNNING)",
-        "process kills (trial left RUNNING forever) are injected only where the sampler promises coverage regardless of running trials: GridSampler and BruteForceSampler(avoid_premature_stop=True); with avoid_premature_stop=False the sampler documents incomplete coverage",
+        "process kills (trial left RUNNING forever) on the durable deployments. GridSampler and BruteForceSampler(avoid_premature_stop=True) promise coverage regardless of running trials: every leaf exactly once. BruteForceSampler(avoid_premature_stop=False) documents that the position held by a running trial counts as taken: leaves below the parameter prefix p at which a worker died may stay unvisited as long as no other trial went below p (once one did, p's node is expanded, the mark on it is void and everything below must be visited); everything else exactly once, and the search stops by itself when only such leaves are left",
         "GridSampler is always re-created with the same seed (grid ids index the seed-shuffled grid); BruteForceSampler is re-created with the same or a different seed; BruteForceSampler(seed=None) is not run (non-deterministic order, equivalent to some seed)",
         "exhaustion coinciding with a chunk end / stopping callback / interrupt: exactly-once only (counter exhausted_at_boundary:*)",
     ],
@@ -180,12 +180,21 @@ def grid_leaves(prog: dict) -> list[str]:
     return out
 
 
-def walk_tree(trial: Any, prog: dict) -> tuple[str | None, str]:
+class _EarlyCut(BaseException):
+    """The process is to die after `cut` suggest calls of this trial."""
+
+    def __init__(self, combo: dict) -> None:
+        self.combo = combo
+
+
+def walk_tree(trial: Any, prog: dict, cut: int | None = None) -> tuple[str | None, str]:
     """Run the define-by-run program on `trial`.  Returns (leaf key, '') or (None, why)."""
     params = prog["params"]
     node = prog.get("tree")
     combo: dict = {}
     while node is not None and node.get("p") in params and node["p"] not in combo:
+        if cut is not None and len(combo) >= cut:
+            raise _EarlyCut(combo)
         name = node["p"]
         spec = node_spec(prog, node)
         v = suggest(trial, name, spec)
@@ -199,9 +208,11 @@ def walk_tree(trial: Any, prog: dict) -> tuple[str | None, str]:
     return key_of(combo), ""
 
 
-def walk_grid(trial: Any, prog: dict) -> tuple[str | None, str]:
+def walk_grid(trial: Any, prog: dict, cut: int | None = None) -> tuple[str | None, str]:
     combo: dict = {}
     for name in grid_names(prog):
+        if cut is not None and len(combo) >= cut:
+            raise _EarlyCut(combo)
         v = suggest(trial, name, prog["params"][name])
         i = index_in(prog["grid"][name], v)
         if i is None:
@@ -332,7 +343,7 @@ def gen_plan(seed: int, run: int, tier: str) -> dict:
     nl = len(leaves)
     import os
 
-    kills_ok = kind in DURABLE and bool(sampler["kind"] == "grid" or sampler.get("avoid_premature_stop")) and os.environ.get("VERIF_C14_NO_KILLS") != "1"
+    kills_ok = kind in DURABLE and os.environ.get("VERIF_C14_NO_KILLS") != "1"
     p_fault = rng.choice([0.0, 0.1, 0.25, 0.5])
     kinds = [("fail", 3.0), ("prune", 3.0), ("interrupt", 2.0), ("uncaught", 1.0)]
     if kills_ok:
@@ -351,6 +362,9 @@ def gen_plan(seed: int, run: int, tier: str) -> dict:
         stop_after = rng.randint(1, max(1, nl // 2)) if rng.random() < 0.2 else None
         horizon = min(nl, n_trials if n_trials is not None else nl)
         faults = [{"at": i, "kind": common.weighted(rng, kinds)} for i in range(horizon) if rng.random() < p_fault]
+        for f in faults:
+            if f["kind"] == "kill" and rng.random() < 0.5:
+                f["after"] = rng.choice([0, 0, 1, 2])  # the process dies after that many suggest calls
         resume = common.weighted(rng, [("same", 3.0), ("reload", 2.0), ("restart", 3.0)])
         ch: dict = {"n_trials": n_trials, "stop_after": stop_after, "faults": faults, "resume": resume}
         if sampler["kind"] == "brute" and rng.random() < 0.5:
@@ -362,7 +376,10 @@ def gen_plan(seed: int, run: int, tier: str) -> dict:
             chunks.append({"n_trials": None, "stop_after": None, "faults": [], "resume": "restart"})
         c0 = rng.choice(chunks)
         at = rng.randrange(max(1, min(nl - 1, c0["n_trials"] if c0["n_trials"] is not None else nl)))
-        c0["faults"] = [f for f in c0["faults"] if f["at"] != at] + [{"at": at, "kind": "kill"}]
+        kf: dict = {"at": at, "kind": "kill"}
+        if rng.random() < 0.5:
+            kf["after"] = rng.choice([0, 0, 1, 2])
+        c0["faults"] = [f for f in c0["faults"] if f["at"] != at] + [kf]
         c0["faults"].sort(key=lambda f: f["at"])
     # the implicit last chunk (n_trials=None) may carry faults too
     tail_faults = [{"at": i, "kind": common.weighted(rng, [k for k in kinds if k[0] in ("fail", "prune")])} for i in range(nl) if rng.random() < p_fault]
@@ -449,7 +466,10 @@ def _run(plan: dict, sim: sched.Sim, ch: sched.Chooser, dep: deploy.Deployment) 
     leafset = set(leaves)
     if len(leafset) != len(leaves):
         raise RuntimeError("generator produced duplicate leaves: %r" % leaves)
-    kills_ok = durable and (is_grid or bool(plan["sampler"].get("avoid_premature_stop")))
+    kills_ok = durable
+    # BruteForceSampler(avoid_premature_stop=False) treats a RUNNING trial's unexplored
+    # position as taken: what lies below the point where a worker died may stay unvisited
+    excusing = not is_grid and not bool(plan["sampler"].get("avoid_premature_stop"))
     walk = walk_grid if is_grid else walk_tree
     chunks = list(plan.get("chunks", []))
     n_planned_cuts = sum(1 for c in chunks for f in c.get("faults", []) if f.get("kind") in ("interrupt", "uncaught", "kill")) + len(chunks)
@@ -460,6 +480,8 @@ def _run(plan: dict, sim: sched.Sim, ch: sched.Chooser, dep: deploy.Deployment) 
         "evals": [],  # (chunk index, leaf key, outcome)
         "visits": {},  # leaf key -> number of finished evaluations
         "kills": 0,
+        "killed_at": [],  # parameter prefixes (dicts) of the trials whose process was killed
+        "paths": [],  # parameter dicts of every other evaluation
         "verdict": None,
         "done": None,
         "calls": 0,
@@ -473,14 +495,39 @@ def _run(plan: dict, sim: sched.Sim, ch: sched.Chooser, dep: deploy.Deployment) 
         if S["verdict"] is None:
             S["verdict"] = (prefix + kind_ + "|" + why[:160], why)
 
+    leaf_items = {k: set(map(tuple, json.loads(k))) for k in leaves}
+
+    def excused() -> set:
+        """Leaves the sampler may leave out: below the position p of a killed trial, as long
+        as no other trial went below p (then p's node is expanded and the RUNNING mark on it
+        is void)."""
+        if not excusing or not S["killed_at"]:
+            return set()
+        out: set = set()
+        for i, p in enumerate(S["killed_at"]):
+            ps = set((k, canon(v)) for k, v in p.items())
+            others = [set((k, canon(v)) for k, v in q.items()) for q in S["paths"]] + [set((k, canon(v)) for k, v in q.items()) for j, q in enumerate(S["killed_at"]) if j != i]
+            if any(ps < q for q in others):
+                continue
+            out.update(k for k, items in leaf_items.items() if ps <= items)
+        return out
+
     def exhausted() -> bool:
-        return len(S["visits"]) == len(leaves)
+        if len(S["visits"]) == len(leaves):
+            return True
+        if not excusing:
+            return False
+        ex = excused()
+        return all(k in S["visits"] or k in ex for k in leaves)
 
     def run_chunk(study: Any, proc: Any, ci: int, chunk: dict) -> None:
         faults: dict[int, str] = {}
+        fafter: dict[int, int] = {}
         for f in chunk.get("faults", []):
             k = f.get("kind")
             if k in FAULT_KINDS and (k != "kill" or kills_ok):
+                if int(f.get("at", 0)) not in faults and f.get("after") is not None:
+                    fafter[int(f.get("at", 0))] = int(f["after"])
                 faults.setdefault(int(f.get("at", 0)), k)
         n_trials = chunk.get("n_trials")
         stop_after = chunk.get("stop_after")
@@ -495,15 +542,29 @@ def _run(plan: dict, sim: sched.Sim, ch: sched.Chooser, dep: deploy.Deployment) 
             if len(S["evals"]) >= bound:
                 verdict("runaway", "more than %d trials for %d leaves" % (bound, len(leaves)))
                 raise _Abort()
-            key, why = walk(trial, prog)
+            fk = faults.get(i)
+            cut = fafter.get(i) if fk == "kill" else None
+            try:
+                key, why = walk(trial, prog, cut)
+            except _EarlyCut as ec:
+                S["killed_at"].append(dict(ec.combo))
+                S["evals"].append((ci, key_of(ec.combo), "kill"))
+                sim.note("eval", ci, key_of(ec.combo), "kill-early")
+                S["kills"] += 1
+                S["faults_fired"] += 1
+                sim.count("fault:kill")
+                sim.count("fault:kill_before_last_suggest")
+                c["cut"] = "kill"
+                sim.crash(proc)
+                raise sched.SimKilled()
             if key is None:
                 verdict("off-domain", "sampler returned a value outside the parameter's domain: " + why)
                 raise _Abort()
             if key not in leafset:
                 verdict("off-space", "evaluated combination %s is not a leaf of the program" % key)
                 raise _Abort()
-            fk = faults.get(i)
             if fk == "kill":
+                S["killed_at"].append(dict(json.loads(key)))
                 S["evals"].append((ci, key, "kill"))
                 sim.note("eval", ci, key, "kill")
                 S["kills"] += 1
@@ -513,6 +574,7 @@ def _run(plan: dict, sim: sched.Sim, ch: sched.Chooser, dep: deploy.Deployment) 
                 sim.crash(proc)
                 raise sched.SimKilled()
             outcome = fk or "complete"
+            S["paths"].append(dict(json.loads(key)))
             S["evals"].append((ci, key, outcome))
             sim.note("eval", ci, key, outcome)
             if key in S["visits"]:
@@ -637,6 +699,12 @@ def _run(plan: dict, sim: sched.Sim, ch: sched.Chooser, dep: deploy.Deployment) 
             if ci < len(chunks) and "seed" in chunks[ci] and not is_grid:
                 S["next_seed"] = chunks[ci]["seed"]
             sim.count("resume:after_kill")
+            if excusing and exhausted():
+                # nothing is left but what the dead trial still holds: the sampler would stop
+                # after one more (arbitrary) trial; a finished search is not resumed
+                S["done"] = "boundary"
+                sim.count("exhausted_at_boundary:kill")
+                break
         elif t.exc is not None:
             raise t.exc
         elif S["verdict"] is not None or S["done"] is not None:
@@ -667,9 +735,12 @@ def _run(plan: dict, sim: sched.Sim, ch: sched.Chooser, dep: deploy.Deployment) 
         elif tr.state == TrialState.RUNNING:
             nrunning += 1
     sim.note("final", sorted(fin.items()), nrunning)
-    if sorted(fin.items()) != sorted((k, 1) for k in leaves):
+    ex_final = excused()
+    if ex_final:
+        sim.count("leaves_left_to_dead_trials", len([k for k in leaves if k not in S["visits"]]))
+    if sorted(fin.items()) != sorted((k, 1) for k in leaves if k in fin or k not in ex_final):
         extra = sorted(k for k, n in fin.items() if n > 1 or k not in leafset)
-        missing = sorted(leafset - set(fin))
+        missing = sorted(leafset - set(fin) - ex_final)
         v = prefix + "storage-mismatch|finished trials in storage are not the leaves exactly once"
         return common.result(sim, ch, "violation", v, "finished trials read back: duplicated/foreign %s missing %s" % (extra[:3], missing[:3]) + detail_tail, nontrivial=nontrivial)
     if nrunning != S["kills"] or len(trials) != len(S["evals"]):
